@@ -390,19 +390,19 @@ def _specs() -> list[Spec]:
     ]
     # --- aggregation
     S += [
-        Spec("Mean", M.Mean, [{}], g_values_w, cat={0: 0, "weight": 0}, functional=_f(F.mean), model="Mean", family="agg", count_states=("weighted_sum", "weights")),
-        Spec("Sum", M.Sum, [{}], g_values_w, cat={0: 0, "weight": 0}, functional=_f(F.sum), model="Sum", family="agg", count_states=("weighted_sum",)),
-        Spec("Max", M.Max, [{}], g_values, cat={0: 0}, kind="minmax", model="Max", family="agg"),
-        Spec("Min", M.Min, [{}], g_values, cat={0: 0}, kind="minmax", model="Min", family="agg"),
+        Spec("Mean", M.Mean, [{}], g_values_w, cat={0: 0, "weight": 0}, functional=_f(F.mean), model=None, family="agg", count_states=("weighted_sum", "weights")),
+        Spec("Sum", M.Sum, [{}], g_values_w, cat={0: 0, "weight": 0}, functional=_f(F.sum), model=None, family="agg", count_states=("weighted_sum",)),
+        Spec("Max", M.Max, [{}], g_values, cat={0: 0}, kind="minmax", model=None, family="agg"),
+        Spec("Min", M.Min, [{}], g_values, cat={0: 0}, kind="minmax", model=None, family="agg"),
         Spec("Cat", M.Cat, [{}, {"dim": 1}], g_cat, kind="ordered", cat=None, family="agg"),
         Spec("AUC", M.AUC, [{}, {"n_tasks": 2}, {"reorder": False}], g_auc, cat={0: -1, 1: -1}, functional=lambda cfg, b: F.auc(*b.args, reorder=cfg.get("reorder", True)), family="agg"),
         Spec("Covariance", M.Covariance, [{}], g_cov, cat={0: 0}, family="agg", min_samples=2, sizes=(2, 3, 5)),
-        Spec("Throughput", M.Throughput, [{}], g_throughput, kind="throughput", cat=None, model="Throughput", family="agg"),
+        Spec("Throughput", M.Throughput, [{}], g_throughput, kind="throughput", cat=None, model=None, family="agg"),
     ]
     # --- regression
     S += [
         Spec("MeanSquaredError", M.MeanSquaredError, [{}, {"multioutput": "raw_values", "_d": 2}, {"_d": 2}], g_mse, cat={0: 0, 1: 0, "sample_weight": 0},
-             functional=_f(F.mean_squared_error, "multioutput"), model="MeanSquaredError", family="reg", count_states=("sum_weight",)),
+             functional=_f(F.mean_squared_error, "multioutput"), model=None, family="reg", count_states=("sum_weight",)),
         Spec("R2Score", M.R2Score, [{}, {"multioutput": "raw_values", "_d": 2}, {"multioutput": "variance_weighted", "_d": 2}, {"num_regressors": 1}], g_regression, cat=c01,
              functional=_f(F.r2_score, "multioutput", "num_regressors"), family="reg", min_samples=3, sizes=(3, 4, 7), tol=1e-4, count_states=("num_obs",)),
     ]
@@ -414,8 +414,8 @@ def _specs() -> list[Spec]:
              g_retrieval, kind="retrieval", cat=c012, family="rank", sizes=(1, 2, 3, 5)),
         Spec("RetrievalRecall", M.RetrievalRecall, [{"k": 2}, {"k": 3, "limit_k_to_size": True}, {"k": 2, "num_queries": 2, "avg": "macro"}, {"k": None}],
              g_retrieval, kind="retrieval", cat=c012, family="rank", sizes=(1, 2, 3, 5)),
-        Spec("ClickThroughRate", M.ClickThroughRate, [{}, {"num_tasks": 2}], g_ctr, cat={0: -1, 1: -1}, functional=_f(F.click_through_rate, "num_tasks"), model="ClickThroughRate", family="rank", count_states=("click_total", "weight_total")),
-        Spec("WeightedCalibration", M.WeightedCalibration, [{}, {"num_tasks": 2}], g_wc, cat={0: -1, 1: -1, 2: -1}, functional=_f(F.weighted_calibration, "num_tasks"), model="WeightedCalibration", family="rank"),
+        Spec("ClickThroughRate", M.ClickThroughRate, [{}, {"num_tasks": 2}], g_ctr, cat={0: -1, 1: -1}, functional=_f(F.click_through_rate, "num_tasks"), model=None, family="rank", count_states=("click_total", "weight_total")),
+        Spec("WeightedCalibration", M.WeightedCalibration, [{}, {"num_tasks": 2}], g_wc, cat={0: -1, 1: -1, 2: -1}, functional=_f(F.weighted_calibration, "num_tasks"), model=None, family="rank"),
     ]
     # --- text / misc
     S += [
@@ -431,16 +431,29 @@ def _specs() -> list[Spec]:
     ]
     # --- windowed
     S += [
-        Spec("WindowedClickThroughRate", M.WindowedClickThroughRate, [{"max_num_updates": 3}, {"max_num_updates": 2, "num_tasks": 2}, {"max_num_updates": 3, "enable_lifetime": False}], g_ctr, kind="window", family="window", model="WindowedClickThroughRate"),
-        Spec("WindowedWeightedCalibration", M.WindowedWeightedCalibration, [{"max_num_updates": 3}, {"max_num_updates": 2, "num_tasks": 2}, {"max_num_updates": 3, "enable_lifetime": False}], g_wc, kind="window", family="window", model="WindowedWeightedCalibration"),
+        Spec("WindowedClickThroughRate", M.WindowedClickThroughRate, [{"max_num_updates": 3}, {"max_num_updates": 2, "num_tasks": 2}, {"max_num_updates": 3, "enable_lifetime": False}], g_ctr, kind="window", family="window", model=None),
+        Spec("WindowedWeightedCalibration", M.WindowedWeightedCalibration, [{"max_num_updates": 3}, {"max_num_updates": 2, "num_tasks": 2}, {"max_num_updates": 3, "enable_lifetime": False}], g_wc, kind="window", family="window", model=None),
         Spec("WindowedBinaryNormalizedEntropy", M.WindowedBinaryNormalizedEntropy, [{"max_num_updates": 3}, {"max_num_updates": 2, "num_tasks": 2}, {"max_num_updates": 3, "enable_lifetime": False}], g_ne, kind="window", family="window", tol=1e-4),
-        Spec("WindowedMeanSquaredError", M.WindowedMeanSquaredError, [{"max_num_updates": 3}, {"max_num_updates": 2, "enable_lifetime": False}], g_mse, kind="window", family="window", model="WindowedMeanSquaredError"),
+        Spec("WindowedMeanSquaredError", M.WindowedMeanSquaredError, [{"max_num_updates": 3}, {"max_num_updates": 2, "enable_lifetime": False}], g_mse, kind="window", family="window", model=None),
         Spec("WindowedBinaryAUROC", M.WindowedBinaryAUROC, [{"max_num_samples": 5}, {"max_num_samples": 4, "num_tasks": 2}], g_binary_tasks_w, kind="window", family="window"),
     ]
     return S
 
 
 SPECS: list[Spec] = _specs()
+
+
+def _probe_models():
+    """a class is 'modelled' when the built driver knows it (asked once per process)."""
+    from .common import run_driver, DRIVER
+    if not DRIVER.exists():
+        return
+    outs = run_driver([f"prog {s.name} | o 0" for s in SPECS])
+    for s, o in zip(SPECS, outs):
+        s.model = None if "unknown class" in o else s.name
+
+
+_probe_models()
 BY_NAME = {s.name: s for s in SPECS}
 
 
